@@ -247,3 +247,21 @@ def run_forked(fn, args: tuple, timeout: float = 60.0):
     p.join()
     parent.close()
     return res
+
+
+def packages_for(root: str, module: str, specs: list) -> list:
+    """`find_packages(<module_root_dir>)` without filters, for the module_root_dir the real code derives from `module`
+    (dirname of the resolved file); [] when the module cannot be resolved."""
+    table = dict((k, v) for k, v in specs)
+    mroot, _, sub = module.rpartition(".")
+    origin = table.get(mroot if mroot else module)
+    if origin is None:
+        return []
+    real = origin.replace(CANON, root, 1)
+    parent = os.path.dirname(real)
+    if mroot:
+        for cand in (os.path.join(parent, sub, "__init__.py"), os.path.join(parent, sub + ".py")):
+            if os.path.exists(cand):
+                real = cand
+                break
+    return find_packages_unfiltered(os.path.dirname(real))
